@@ -424,6 +424,22 @@ class Case:
                     R = np.asarray(asm.multi_entries(IJ)).reshape(m, n)
         finally:
             pyiga.set_max_threads(old)
+        if self.arity == 2:
+            # entries of basis functions with non-overlapping supports are EXACTLY zero (own computation
+            # of the overlap pattern from the knot vectors of the assembler's spaces)
+            kvs0, kvs1 = asm.kvs
+            mask = np.ones((1, 1), dtype=bool)
+            for k0, k1 in zip(kvs0, kvs1):
+                a0, b0 = k0.kv[:k0.numdofs], k0.kv[k0.p + 1:k0.p + 1 + k0.numdofs]
+                a1, b1 = k1.kv[:k1.numdofs], k1.kv[k1.p + 1:k1.p + 1 + k1.numdofs]
+                ov = np.minimum(b1[:, None], b0[None, :]) > np.maximum(a1[:, None], a0[None, :])
+                mask = np.kron(mask, ov)
+            Rm = R if R.ndim == 2 else np.abs(R).max(axis=(2, 3))
+            bad = (~mask) & (Rm != 0)
+            self.ctx.check(not bad.any(), 'nonoverlapping-entry-nonzero',
+                           lambda: '%s: %d entries of basis functions with disjoint supports are not exactly zero, e.g. %s = %r'
+                           % (self.kind, int(bad.sum()), tuple(np.argwhere(bad)[0]), Rm[tuple(np.argwhere(bad)[0])]),
+                           {'what': 'nonoverlap', 'kind': self.kind})
         self._ref[key] = R
         return R
 
